@@ -162,6 +162,18 @@ pub fn check_case(c: &OptCase, obs: &mut Obs) -> Result<(), String> {
         let src = source_url(*third, source_host);
         let Ok(req) = Request::new(&url, &src, raw_type) else {
             obs.label("unparsable-request");
+            // host-less URLs of unsupported schemes (data:, ...) can still arrive pre-parsed: they
+            // are never eligible for matching
+            if !["http", "https", "ws", "wss"].contains(&scheme.as_str()) {
+                let p = Request::preparsed(&url, "", source_host.as_deref().unwrap_or(""), raw_type, *third);
+                obs.inner_evals += 1;
+                // (the gate is the request's is_supported flag, which the engine honours; the bare
+                // per-rule matcher does not look at it)
+                let b = engine.check_network_request(&p);
+                if p.is_supported || b.matched || b.exception.is_some() || b.rewritten_url.is_some() {
+                    return Err(format!("rule {:?}: a pre-parsed request for {:?} (unsupported scheme) is treated as eligible: is_supported={}, engine verdict {:?}", line, url, p.is_supported, Verdict::of(&b)));
+                }
+            }
             continue;
         };
         obs.inner_evals += 1;
